@@ -298,7 +298,10 @@ impl Property for C10 {
                     } else {
                         "interrupted-stamp-commit"
                     };
-                    for x in v.iter_mut() {
+                    // the symptom of an interrupted commit is a run that succeeds on
+                    // a misjudged record and a target that no longer reacts to edits;
+                    // crashes, failures and hangs of the recovery keep their own kind
+                    for x in v.iter_mut().filter(|x| x.kind.starts_with("stale-") || x.kind == "false-override") {
                         x.detail = format!("[{} in flight: {:?}] {}: {}", kind, w, x.kind, x.detail);
                         x.kind = kind.to_string();
                     }
